@@ -66,6 +66,11 @@ func c07templates() []c07tmpl {
 	add("index", "«0:arr»[«1:int»]")
 	add("chain argument reduce", "«0:arr»$(«1:int»){|a, x| a + x}")
 	add("chain argument list", "«0:arr»@([])+(«1:int»)")
+	add("chain argument then call args (list prop)", "«0:arr»@(«1:arr»)+(«2:int»)")
+	add("chain argument then call args (reduce prop)", "«0:arr»$(«1:int»)+(«2:int»)")
+	add("chain argument then args and kwargs (scalar prop)", "«0:o».(«1:int»)m(«2:int», «3:int», k: «4:int»)")
+	add("chain argument then args (lonely prop)", "«0:o»&.(«1:int»)m(«2:int», k: «3:int»)")
+	add("chain argument then call args (strict list prop)", "«0:arr»=@(«1:arr»)+(«2:int»)")
 	add("literal call body", "[1, 2]@{|x| «0:int» + x}")
 	add("var call chain arg", "«0:arr»$(«1:int»)^gv2")
 	add("if true branch", "(«1:int» if «0:true» else 3)")
@@ -128,6 +133,17 @@ func c07chainTemplates() []c07tmpl {
 	ts = append(ts, c07tmpl{name: "iterator receiver A", text: itr + ".A"})
 	ts = append(ts, c07tmpl{name: "iterator receiver reduce method", text: itr + ".reduce(gv2, init: 0)"})
 	ts = append(ts, c07tmpl{name: "iterator receiver next x3", text: "{|it| [it.next, it.next, it.next]}(" + itr + ")"})
+	// native Iterable props driving an iterator whose element k raises: the error reaches the caller, whatever
+	// the library does with the elements in between
+	for _, sfx := range []string{".acc({|a, x| a + x}, init: 0).A", ".all? {|x| x > 0}", ".any? {|x| x > 99}", ".append(9).A", ".avg", ".chain([9]).A", ".chunk(2).A", ".empty?",
+		".exclude {|x| x > 99}", ".find {|x| x > 99}", ".index(99)", ".indices(99)", ".keyBy {|x| x}", ".lazyMap {|x| x}.A", ".last", ".map {|x| x}", ".max", ".min", ".prepend(9).A",
+		".reduce({|a, x| a + x}, init: 0)", ".rindex(99)", ".select {|x| x < 99}", ".std", ".sum", ".tally", ".until {|x| x > 99}.A", ".while {|x| x < 99}.A", ".withI.A", ".zip([7, 8, 9]).A",
+		".lazyMap {|x| x}.chain([9]).A", ".lazyMap {|x| x}.append(9).sum", ".withI.lazyMap {|p| p}.A"} {
+		ts = append(ts, c07tmpl{name: "iterator receiver Iterable#" + sfx, text: itr + sfx})
+	}
+	ts = append(ts, c07tmpl{name: "iterator argument of chain", text: "[9].chain(" + itr + ").A"})
+	ts = append(ts, c07tmpl{name: "iterator argument of zip", text: "[7, 8, 9].zip(" + itr + ").A"})
+	ts = append(ts, c07tmpl{name: "raising callback of lazyMap through chain", text: "[0].chain([1, 2, 3].lazyMap {|x| [«0:int», «1:int», «2:int»][x - 1]; x}).A", noFault: map[int]bool{}})
 	for _, ch := range []string{".", "&.", "=."} {
 		ts = append(ts, c07tmpl{name: "scalar chain " + ch + " prop", text: "[" + el(0) + ch + "f, " + el(1) + ch + "f]"})
 		ts = append(ts, c07tmpl{name: "scalar chain " + ch + " literal", text: "[" + el(0) + ch + "{|x| x.f}, " + el(1) + ch + "{|x| x.f}]"})
